@@ -221,23 +221,44 @@ def segwit_addr_encode(hrp, version, program, strict=True):
     return bech32_encode(hrp, [version] + regroup(program, 8, 5, True), segwit_const(version))
 
 
-def segwit_addr_decode(addr, hrps=("bc", "tb", "bcrt"), strict=True):
-    """(hrp, version, program) or None -- BIP173 'Segwit address format' + BIP350 constant rule"""
+def segwit_reject_reason(addr, hrps=("bc", "tb", "bcrt"), strict=True):
+    """None when addr is a valid segwit address, else the FIRST rule of BIP173/BIP350 it breaks:
+    'bech32'    not a Bech32/Bech32m string at all (length > 90, character set, mixed case, separator, checksum)
+    'hrp'       human-readable part is not one of the known networks
+    'length'    empty data part, or witness program shorter than 2 / longer than 40 bytes
+    'version'   witness version above 16
+    'constant'  Bech32 checksum on version 1..16 or Bech32m checksum on version 0
+    'padding'   more than 4 padding bits, or non-zero padding bits
+    'v0-length' version 0 program that is not 20 or 32 bytes (only when strict)"""
     dec = bech32_decode(addr)
     if dec is None:
-        return None
+        return "bech32"
     hrp, data, const = dec
-    if hrp not in hrps or len(data) < 1:
-        return None
+    if hrp not in hrps:
+        return "hrp"
+    if len(data) < 1:
+        return "length"
     version = data[0]
-    if version > 16 or const != segwit_const(version):
-        return None
+    if version > 16:
+        return "version"
+    if const != segwit_const(version):
+        return "constant"
     prog = regroup(data[1:], 5, 8, False)
-    if prog is None or not (2 <= len(prog) <= 40):
-        return None
+    if prog is None:
+        return "padding"
+    if not (2 <= len(prog) <= 40):
+        return "length"
     if strict and not segwit_valid_program(version, len(prog)):
+        return "v0-length"
+    return None
+
+
+def segwit_addr_decode(addr, hrps=("bc", "tb", "bcrt"), strict=True):
+    """(hrp, version, program) or None -- BIP173 'Segwit address format' + BIP350 constant rule"""
+    if segwit_reject_reason(addr, hrps, strict) is not None:
         return None
-    return hrp, version, bytes(prog)
+    hrp, data, const = bech32_decode(addr)
+    return hrp, data[0], bytes(regroup(data[1:], 5, 8, False))
 
 
 def witness_spk(version, program):
@@ -304,24 +325,40 @@ def spk_to_address(spk, network):
     return segwit_addr_encode(SEGWIT_HRP[network], spk[0] and spk[0] - 0x50, h)
 
 
-def address_to_spk(addr):
-    """(scriptPubKey bytes, tuple of networks the address belongs to) for the five standard templates, else None"""
+def address_reject_reason(addr):
+    """None when addr is the address of one of the five standard templates on some network, else why not:
+    'b58-version' valid Base58Check, 21-byte payload, version byte is not a P2PKH/P2SH version
+    'b58-length'  valid Base58Check whose payload is not 1 + 20 bytes
+    'segwit-<r>'  not Base58Check and not a valid segwit address (r = segwit_reject_reason)
+    'witness-nonstandard' valid segwit address that is none of P2WPKH / P2WSH / P2TR (version 1 with != 32 bytes, versions 2..16)"""
     p = base58check_decode(addr)
     if p is not None:
         if len(p) != 21:
-            return None
+            return "b58-length"
+        if p[0] not in (0x00, 0x05, 0x6F, 0xC4):
+            return "b58-version"
+        return None
+    r = segwit_reject_reason(addr)
+    if r is not None:
+        return "segwit-" + r
+    hrp, version, prog = segwit_addr_decode(addr)
+    if version == 0 or (version == 1 and len(prog) == 32):
+        return None
+    return "witness-nonstandard"
+
+
+def address_to_spk(addr):
+    """(scriptPubKey bytes, tuple of networks the address belongs to) for the five standard templates, else None"""
+    if address_reject_reason(addr) is not None:
+        return None
+    p = base58check_decode(addr)
+    if p is not None:
         for kind_i, kind in ((0, "p2pkh"), (1, "p2sh")):
             nets = tuple(n for n in NETWORKS if B58_VERSIONS[n][kind_i] == p[0])
             if nets:
                 return template_spk(kind, p[1:]), nets
-        return None
-    d = segwit_addr_decode(addr)
-    if d is None:
-        return None
-    hrp, version, prog = d
-    if version == 0 or (version == 1 and len(prog) == 32):
-        return witness_spk(version, prog), HRP_NETS[hrp]
-    return None
+    hrp, version, prog = segwit_addr_decode(addr)
+    return witness_spk(version, prog), HRP_NETS[hrp]
 
 
 # ------------------------------------------------------------------------------------------- WIF
@@ -332,17 +369,29 @@ def wif_encode(secret, compressed, mainnet):
     return base58check_encode(bytes([0x80 if mainnet else 0xEF]) + secret.to_bytes(32, "big") + (b"\x01" if compressed else b""))
 
 
+def wif_reject_reason(s):
+    """None for a valid WIF string, else 'checksum' (not Base58Check), 'length' (payload not 33/34 bytes), 'version'
+    (first byte not 0x80/0xef), 'flag' (34 bytes but last byte not 0x01), 'range' (secret 0 or >= group order)"""
+    p = base58check_decode(s)
+    if p is None:
+        return "checksum"
+    if len(p) not in (33, 34):
+        return "length"
+    if p[0] not in (0x80, 0xEF):
+        return "version"
+    if len(p) == 34 and p[33] != 1:
+        return "flag"
+    if not (1 <= int.from_bytes(p[1:33], "big") < SECP_N):
+        return "range"
+    return None
+
+
 def wif_decode(s):
     """(secret, compressed, mainnet?) or None"""
+    if wif_reject_reason(s) is not None:
+        return None
     p = base58check_decode(s)
-    if p is None or len(p) not in (33, 34) or p[0] not in (0x80, 0xEF):
-        return None
-    if len(p) == 34 and p[33] != 1:
-        return None
-    secret = int.from_bytes(p[1:33], "big")
-    if not (1 <= secret < SECP_N):
-        return None
-    return secret, len(p) == 34, p[0] == 0x80
+    return int.from_bytes(p[1:33], "big"), len(p) == 34, p[0] == 0x80
 
 
 # ------------------------------------------------------------------------------------------- descriptor checksum
@@ -410,27 +459,38 @@ def cbor_bytes(data):
     return b"\x5b" + n.to_bytes(8, "big") + data
 
 
-def cbor_bytes_decode(enc):
-    """payload of a well-formed single definite-length byte-string item that is exactly `enc`; None otherwise
-    (wrong major type, truncated head, fewer or more bytes than declared)"""
+def cbor_reject_reason(enc):
+    """None when `enc` is exactly one well-formed definite-length CBOR byte-string item (RFC 8949), else:
+    'empty', 'major-type' (initial byte not 0x40..0x5b), 'reserved' (additional info 28..31: reserved / indefinite),
+    'head-truncated' (length field cut short), 'truncated' (fewer content bytes than declared), 'trailing' (more)"""
     if len(enc) < 1:
-        return None
+        return "empty"
     ib = enc[0]
     if ib >> 5 != 2:
-        return None
+        return "major-type"
     ai = ib & 31
     if ai < 24:
         n, off = ai, 1
     elif ai <= 27:
         w = 1 << (ai - 24)
         if len(enc) < 1 + w:
-            return None
+            return "head-truncated"
         n, off = int.from_bytes(enc[1:1 + w], "big"), 1 + w
     else:
-        return None                      # 28..30 reserved, 31 indefinite length: not a single definite item
-    if len(enc) != off + n:
+        return "reserved"
+    if len(enc) < off + n:
+        return "truncated"
+    if len(enc) > off + n:
+        return "trailing"
+    return None
+
+
+def cbor_bytes_decode(enc):
+    """payload of a well-formed single definite-length byte-string item that is exactly `enc`; None otherwise"""
+    if cbor_reject_reason(enc) is not None:
         return None
-    return enc[off:]
+    ai = enc[0] & 31
+    return enc[1:] if ai < 24 else enc[1 + (1 << (ai - 24)):]
 
 
 def cbor_head_len(n):
@@ -444,19 +504,30 @@ def bc32_encode(data):
     return "".join(CHARSET[d] for d in dd + [(pm >> (5 * (5 - i))) & 31 for i in range(6)])
 
 
+def bc32_reject_reason(s):
+    """None for a valid bc32 string, else 'case' (mixed case), 'charset', 'short' (no room for the 6 checksum symbols),
+    'checksum', 'padding' (5-bit groups do not regroup to whole bytes with zero padding)"""
+    if not isinstance(s, str):
+        return "charset"
+    if s.lower() != s and s.upper() != s:
+        return "case"
+    vals = [CHARSET.find(c) for c in s.lower()]
+    if any(v < 0 for v in vals):
+        return "charset"
+    if len(vals) < 6:
+        return "short"
+    if bech32_polymod([0] + vals) != BC32_CONST:
+        return "checksum"
+    if regroup(vals[:-6], 5, 8, False) is None:
+        return "padding"
+    return None
+
+
 def bc32_decode(s):
     """bytes or None"""
-    if not isinstance(s, str):
+    if bc32_reject_reason(s) is not None:
         return None
-    if s.lower() != s and s.upper() != s:
-        return None
-    vals = [CHARSET.find(c) for c in s.lower()]
-    if len(vals) < 6 or any(v < 0 for v in vals):
-        return None
-    if bech32_polymod([0] + vals) != BC32_CONST:
-        return None
-    out = regroup(vals[:-6], 5, 8, False)
-    return None if out is None else bytes(out)
+    return bytes(regroup([CHARSET.find(c) for c in s.lower()][:-6], 5, 8, False))
 
 
 def ur_bytes_encode(payload):
@@ -476,9 +547,60 @@ def ur_bytes_decode(enc, digest=None):
     return cbor_bytes_decode(c)
 
 
-def chunks_of(s, k):
-    """s cut into consecutive pieces of k characters (the last one possibly shorter)"""
-    return [s[i:i + k] for i in range(0, len(s), k)]
+def ur_part(i, n, digest, piece):
+    return "ur:bytes/%dof%d/%s/%s" % (i, n, digest, piece)
+
+
+def ur_parts_problem(parts, enc, digest, max_size):
+    """None when `parts` is a correct multi-part rendering of the bc32 string `enc` with digest string `digest` for
+    a maximal piece size `max_size` >= 1; else a short description of what is wrong.  Required: the minimal number of
+    parts n = ceil(len(enc) / max_size); part i (1-based) is 'ur:bytes/<i>of<n>/<digest>/<piece_i>'; no piece empty,
+    none longer than max_size, the pieces concatenate to enc."""
+    n = (len(enc) + max_size - 1) // max_size
+    if len(parts) != n:
+        return "%d parts, expected ceil(%d/%d) = %d" % (len(parts), len(enc), max_size, n)
+    pieces = []
+    for i, p in enumerate(parts):
+        head = "ur:bytes/%dof%d/%s/" % (i + 1, n, digest)
+        if not p.startswith(head):
+            return "part %d does not start with %r" % (i + 1, head)
+        piece = p[len(head):]
+        if piece == "":
+            return "part %d is empty" % (i + 1)
+        if len(piece) > max_size:
+            return "part %d longer than max_size" % (i + 1)
+        pieces.append(piece)
+    if "".join(pieces) != enc:
+        return "pieces do not concatenate to the encoding"
+    return None
+
+
+def ur_part_fields(part):
+    """(i, n, digest, piece) of a multi-part string 'ur:bytes/<i>of<n>/<digest>/<piece>' (case-insensitive), or None"""
+    if not isinstance(part, str):
+        return None
+    f = part.strip().lower().split("/")
+    if len(f) != 4 or f[0] != "ur:bytes":
+        return None
+    xy = f[1].split("of")
+    if len(xy) != 2 or not (xy[0].isdigit() and xy[1].isdigit()) or not (xy[0].isascii() and xy[1].isascii()):
+        return None
+    return int(xy[0]), int(xy[1]), f[2], f[3]
+
+
+def ur_parts_payload(parts):
+    """strict reassembly per bcr-2020-005: payload when `parts` is the complete ordered set 1..n of n parts, all with
+    the same 58-character digest, whose pieces concatenate to a valid bc32 string of a well-formed CBOR byte string
+    whose sha256 is that digest; None otherwise"""
+    fs = [ur_part_fields(p) for p in parts]
+    if not fs or any(f is None for f in fs):
+        return None
+    n = fs[0][1]
+    if len(fs) != n or any(f[1] != n or f[2] != fs[0][2] for f in fs):
+        return None
+    if [f[0] for f in fs] != list(range(1, n + 1)):
+        return None
+    return ur_bytes_decode("".join(f[3] for f in fs), fs[0][2])
 
 
 # ------------------------------------------------------------------------------------------- secp256k1 / BIP32 public derivation / wsh(sortedmulti)
